@@ -456,7 +456,10 @@ def _check_factory(r, mode):
                 raise Violation(f'factory-promotion:{w}', f'component {c}: dtype {l.dtype}, expected {want_dt} (inputs {[str(dts[u]) for u in used]})')
             if not (w != 'from_iquv' and r['as_struct']) and not np.array_equal(np.asarray(l, dtype=np.float64), arrs[t]):
                 raise Violation(f'factory-value:{w}', f'component {c} does not hold the {c} input')
-            if not (w != 'from_iquv' and r['as_struct']) and want_dt.kind == 'f' and want_dt.itemsize >= 4:
+            # (only judged when a strongly typed component takes part: a container built from weakly typed components
+            # alone has nothing to be promoted to, and staying weak is consistent across its components)
+            if not (w != 'from_iquv' and r['as_struct']) and want_dt.kind == 'f' and want_dt.itemsize >= 4 \
+                    and any(u not in weak_c for u in used):
                 after = np.dtype((l * jnp.ones((), dtype=jnp.float16)).dtype)
                 if after != want_dt:
                     raise Violation(f'factory-weak-component:{w}', f'component {c} is weakly typed after promotion (times float16 -> {after}, expected {want_dt})')
